@@ -153,3 +153,39 @@ def paths_between(body, a, b, limit=2000):
             if s not in path:
                 stack.append((s, path + (s,)))
     return out
+
+
+def forward_states(body, init, transfer, start=0, edge_filter=None):
+    """Set-of-states forward dataflow on normal edges.
+    transfer(block, state) -> iterable of out-states (applied once per block, covering stmts + terminator).
+    edge_filter(block, succ, state) -> state or None to refine/kill on an edge.
+    Returns (in_states: {block: set}, out_states: {block: set})."""
+    ins = {start: {init}}
+    outs = {}
+    work = [start]
+    while work:
+        b = work.pop()
+        o = set()
+        for s in ins.get(b, ()):
+            o.update(transfer(b, s))
+        if outs.get(b) == o:
+            continue
+        outs[b] = o
+        for nx in body.succ[b]:
+            add = set()
+            for s in o:
+                s2 = edge_filter(b, nx, s) if edge_filter else s
+                if s2 is not None:
+                    add.add(s2)
+            cur = ins.setdefault(nx, set())
+            if not add <= cur:
+                cur.update(add)
+                work.append(nx)
+            elif nx not in outs:
+                work.append(nx)
+    return ins, outs
+
+
+def diverges(body, b):
+    """block b cannot reach a return on normal edges (panic path)."""
+    return not any(body.term(x)["k"] == "return" for x in body.reachable_from(b))
